@@ -35,7 +35,7 @@ impl<F: Fam, const N: usize> Sut<F, N> {
     }
 }
 
-pub const OPS: [&str; 17] = [
+pub const OPS: [&str; 18] = [
     "insert",
     "insert_key_value",
     "checked_insert",
@@ -53,6 +53,7 @@ pub const OPS: [&str; 17] = [
     "fmt_probe",
     "entry",
     "insert_unchecked",
+    "adaptor",
 ];
 const O_INSERT: usize = 0;
 const O_IKV: usize = 1;
@@ -71,18 +72,19 @@ const O_ITER: usize = 13;
 const O_FMT: usize = 14;
 const O_ENTRY: usize = 15;
 const O_UNCHECKED: usize = 16;
+const O_ADAPT: usize = 17;
 
 pub struct Cfg {
-    pub weights: [u32; 17],
+    pub weights: [u32; 18],
     pub allow_forget: bool,
     pub profile: &'static str,
     /// probability (num/8) that an inserting/looking-up op targets a present class
     pub p_present: u64,
 }
 
-pub fn weights_for(prop: &str) -> [u32; 17] {
+pub fn weights_for(prop: &str) -> [u32; 18] {
     //            ins ikv chk gmu idx idm rem ren ret clr drn con frk itr fmt ent
-    let mut w = [14, 6, 8, 4, 3, 3, 10, 5, 3, 1, 2, 1, 1, 2, 1, 6, 0];
+    let mut w = [14, 6, 8, 4, 3, 3, 10, 5, 3, 1, 2, 1, 1, 2, 1, 6, 0, 2];
     match prop {
         "C01" => {
             w[O_FORK] = 0;
@@ -95,16 +97,21 @@ pub fn weights_for(prop: &str) -> [u32; 17] {
             w[O_FORK] = 3;
             w[O_RETAIN] = 5;
             w[O_CLEAR] = 2;
+            w[O_ADAPT] = 8;
         }
         "C05" => {
             w[O_ENTRY] = 10;
             w[O_RETAIN] = 6;
             w[O_CHECKED] = 10;
         }
-        "C09" => w[O_ITER] = 30,
+        "C09" => {
+            w[O_ITER] = 30;
+            w[O_ADAPT] = 20;
+        }
         "C10" => {
             w[O_DRAIN] = 16;
             w[O_CONSUME] = 16;
+            w[O_ADAPT] = 16;
         }
         "C12" => {
             w[O_IKV] = 12;
@@ -352,7 +359,7 @@ impl<'a> Engine<'a> {
         fp.add(u64::from(class));
         fp.add(aux);
         // non-trivial: the pre-state is non-empty or the op mutates
-        let mutates = !matches!(op, O_INDEX | O_ITER | O_FMT);
+        let mutates = !matches!(op, O_INDEX | O_ITER | O_FMT | O_ADAPT);
         if !s.order.is_empty() || mutates {
             self.cx.rep.fps.add(fp.get());
         }
@@ -362,6 +369,13 @@ impl<'a> Engine<'a> {
     /// ledger conservation: every live object is stored in a container or was legitimately
     /// leaked by the harness
     fn conservation<F: Fam>(&mut self, stored_entries: usize, whr: &str) {
+        if let (Some(live), false) = (F::live_objects().map(|l| l - self.h.live_base), self.h.failed) {
+            // self-counting keys (zero-sized): one key object per stored entry
+            let want = stored_entries as i64 + (self.h.leaked_ok / 2) as i64;
+            if live != want {
+                self.h.viol("C02", if live > want { "leak" } else { "destroyed-too-many" }, format!("{}: {} self-counting key objects are alive but the containers hold {} entries (harness leaked {})", whr, live, stored_entries, self.h.leaked_ok / 2));
+            }
+        }
         if !F::TRACKED || self.h.failed {
             return;
         }
@@ -420,7 +434,7 @@ impl<'a> Engine<'a> {
             }
             let va = addr_of(v);
             let ka = addr_of(k);
-            if !(ka >= range.0 && ka < range.1.max(range.0 + 1) && va >= range.0 && va < range.1.max(range.0 + 1)) {
+            if !(ka >= range.0 && ka + std::mem::size_of::<F::K>() <= range.1 && va >= range.0 && va + std::mem::size_of::<F::V>() <= range.1) {
                 self.h.viol("C06", "ref-outside", format!("iter() reference outside the container bytes: key {:#x} value {:#x} range {:#x?}", ka, va, range));
             }
             let class = k.class();
@@ -509,7 +523,10 @@ impl<'a> Engine<'a> {
                             self.h.viol("C01", "get_key_value", format!("get_key_value(class {}) by {}: value {} vs model {}", class, how, p, e.payload));
                         }
                         if F::TRACKED && (*tag != e.tag || *kid != e.kid) {
-                            self.h.viol("C12", "get_key_value-identity", format!("get_key_value(class {}) exposes key tag {} id {:#x}, stored key is tag {} id {:#x}", class, tag, kid, e.tag, e.kid));
+                            let msg = format!("get_key_value(class {}) exposes key tag {} id {:#x}, stored key is tag {} id {:#x}", class, tag, kid, e.tag, e.kid);
+                            self.h.viol("C12", "get_key_value-identity", msg.clone());
+                            // the key object is part of the return value (get_key_value / insert_key_value / remove_entry), so C01 is refuted as well
+                            self.h.viol("C01", "returned-key-object", msg);
                         }
                     }
                     _ => self.h.viol("C01", "get_key_value", format!("get_key_value(class {}) by {}: presence differs from the model ({})", class, how, want.is_some())),
@@ -600,7 +617,10 @@ impl<'a> Engine<'a> {
                             if F::TRACKED {
                                 if let Some((otag, oid)) = okey {
                                     if otag != e.tag || oid != e.kid {
-                                        self.h.viol("C12", "returned-key-identity", format!("insert_key_value returned key tag {} id {:#x} but the stored key was tag {} id {:#x}", otag, oid, e.tag, e.kid));
+                                        let msg = format!("insert_key_value returned key tag {} id {:#x} but the stored key was tag {} id {:#x}", otag, oid, e.tag, e.kid);
+                                        self.h.viol("C12", "returned-key-identity", msg.clone());
+                                        // the key object is part of the return value (get_key_value / insert_key_value / remove_entry), so C01 is refuted as well
+                                        self.h.viol("C01", "returned-key-object", msg);
                                     }
                                 }
                             }
@@ -719,7 +739,10 @@ impl<'a> Engine<'a> {
                 }
                 if let (true, Some((tag, kid))) = (F::TRACKED, key) {
                     if tag != e.tag || kid != e.kid {
-                        self.h.viol("C12", "removed-key-identity", format!("remove_entry(class {}) returned key tag {} id {:#x}; the stored key was tag {} id {:#x}", class, tag, kid, e.tag, e.kid));
+                        let msg = format!("remove_entry(class {}) returned key tag {} id {:#x}; the stored key was tag {} id {:#x}", class, tag, kid, e.tag, e.kid);
+                        self.h.viol("C12", "removed-key-identity", msg.clone());
+                        // the key object is part of the return value (get_key_value / insert_key_value / remove_entry), so C01 is refuted as well
+                        self.h.viol("C01", "returned-key-object", msg);
                     }
                 }
             }
@@ -973,6 +996,8 @@ impl<'a> Engine<'a> {
         if !self.light { self.cx.rep.hit(&format!("{}:{}", kname, fill_name(len, N))); }
         // reference traversal (ids in order) via iter()
         let reference: Vec<(u32, u64, u64, u32)> = s.fr.get().iter().map(|(k, v)| (k.class(), k.id(), v.id(), v.payload())).collect();
+        // value address -> class: identifies the entry a ValuesMut item belongs to (addresses are stable while nothing mutates the map)
+        let by_addr: Vec<(usize, u32)> = s.fr.get().iter().map(|(k, v)| (addr_of(v), k.class())).collect();
         macro_rules! exact {
             ($it:expr, $step:expr, $what:expr) => {{
                 let remaining = len - $step;
@@ -1123,9 +1148,12 @@ impl<'a> Engine<'a> {
                                 seq.push((v.payload(), v.id()));
                                 if (wmask >> (step % 60)) & 1 == 1 {
                                     let np = self.h.payload();
-                                    let old = v.payload();
+                                    let va = addr_of(&*v);
                                     v.set_payload(np);
-                                    writes.push((u64::from(old), np));
+                                    match by_addr.iter().find(|x| x.0 == va) {
+                                        Some(x) => writes.push((u64::from(x.1), np)),
+                                        None => self.h.viol("C09", "values_mut-foreign-reference", format!("values_mut yielded a reference at {:#x} that is not the value slot of any entry iter() yields", va)),
+                                    }
                                 }
                             }
                             None => {
@@ -1141,9 +1169,8 @@ impl<'a> Engine<'a> {
                             }
                         }
                     }
-                    // payloads are unique per history, so the old payload identifies the entry
-                    for (oldp, np) in &writes {
-                        if let Some(e) = s.model.ents.iter_mut().find(|e| u64::from(e.payload) == *oldp) {
+                    for (class, np) in &writes {
+                        if let Some(e) = s.model.get_mut(*class as u32) {
                             e.payload = *np;
                         }
                     }
@@ -1169,6 +1196,122 @@ impl<'a> Engine<'a> {
             self.h.viol("C09", "iter-contents", format!("{} yielded {:?}; the stored entries are {:?}", kname, got, want));
         }
         // and the stored entries are what the model says (sweep re-checks values after writes)
+    }
+
+    /// C09 / C10 / C02: consume an iterator through std adaptor and consumer methods (nth, skip,
+    /// step_by, last, fold, count, for_each, take, by_ref) instead of a plain `next()` loop.
+    fn op_adaptor<F: Fam, const N: usize>(&mut self, s: &mut Sut<F, N>) {
+        use crate::common::{drive, STYLES};
+        let kind = self.rng.usize_below(9);
+        let kname = ["iter", "keys", "values", "iter_mut", "values_mut", "drain", "into_iter", "into_keys", "into_values"][kind];
+        let style = 1 + self.rng.usize_below(STYLES.len() - 1);
+        let len = s.model.len();
+        let j = self.rng.usize_below(len + 2);
+        self.step("adaptor", || format!("{}().{} j={}", kname, STYLES[style], j));
+        self.fp_step(s, O_ADAPT, (kind * 1000 + style * 50 + j) as u32, 0);
+        if !self.light { self.cx.rep.hit(&format!("adaptor:{}:{}", kname, STYLES[style])); }
+        // identities in the order of a plain iter() walk: (class, kid, vid)
+        let reference: Vec<(u32, u64, u64, u32)> = s.fr.get().iter().map(|(k, v)| (k.class(), k.id(), v.id(), v.payload())).collect();
+        let tracked = F::TRACKED;
+        let prop = if kind < 5 { "C09" } else { "C10" };
+        // got: (class-or-payload, identity) per yielded item
+        let mut got: Vec<(u32, u64)> = Vec::new();
+        let positions: Vec<usize>;
+        let counted: Option<usize>;
+        match kind {
+            0 => {
+                let (items, pos, c) = drive(s.fr.get().iter(), style, j, len);
+                got.extend(items.iter().map(|(k, v)| { k.chk("adaptor key"); v.chk("adaptor value"); (k.class(), k.id() ^ v.id().rotate_left(17)) }));
+                positions = pos; counted = c;
+            }
+            1 => {
+                let (items, pos, c) = drive(s.fr.get().keys(), style, j, len);
+                got.extend(items.iter().map(|k| { k.chk("adaptor key"); (k.class(), k.id()) }));
+                positions = pos; counted = c;
+            }
+            2 => {
+                let (items, pos, c) = drive(s.fr.get().values(), style, j, len);
+                got.extend(items.iter().map(|v| { v.chk("adaptor value"); (v.payload(), v.id()) }));
+                positions = pos; counted = c;
+            }
+            3 => {
+                let (items, pos, c) = drive(s.fr.get_mut().iter_mut(), style, j, len);
+                got.extend(items.iter().map(|(k, v)| { k.chk("adaptor key"); v.chk("adaptor value"); (k.class(), k.id() ^ v.id().rotate_left(17)) }));
+                positions = pos; counted = c;
+            }
+            4 => {
+                let (items, pos, c) = drive(s.fr.get_mut().values_mut(), style, j, len);
+                got.extend(items.iter().map(|v| { v.chk("adaptor value"); (v.payload(), v.id()) }));
+                positions = pos; counted = c;
+            }
+            5 => {
+                let (items, pos, c) = drive(s.fr.get_mut().drain(), style, j, len);
+                got.extend(items.iter().map(|(k, v)| { k.chk("adaptor key"); v.chk("adaptor value"); (k.class(), k.id() ^ v.id().rotate_left(17)) }));
+                positions = pos; counted = c;
+                drop(items);
+                s.model.clear();
+                let m = s.fr.get();
+                if m.len() != 0 || m.iter().next().is_some() {
+                    self.h.viol("C10", "drain-not-empty", format!("after drain().{} the map is not empty: len() = {}", STYLES[style], m.len()));
+                    self.h.failed = true;
+                }
+            }
+            _ => {
+                s.model = Dict::new(N);
+                let map = s.fr.take();
+                match kind {
+                    6 => {
+                        let (items, pos, c) = drive(map.into_iter(), style, j, len);
+                        got.extend(items.iter().map(|(k, v)| { k.chk("adaptor key"); v.chk("adaptor value"); (k.class(), k.id() ^ v.id().rotate_left(17)) }));
+                        positions = pos; counted = c;
+                    }
+                    7 => {
+                        let (items, pos, c) = drive(map.into_keys(), style, j, len);
+                        got.extend(items.iter().map(|k| { k.chk("adaptor key"); (k.class(), k.id()) }));
+                        positions = pos; counted = c;
+                    }
+                    _ => {
+                        let (items, pos, c) = drive(map.into_values(), style, j, len);
+                        got.extend(items.iter().map(|v| { v.chk("adaptor value"); (v.payload(), v.id()) }));
+                        positions = pos; counted = c;
+                    }
+                }
+                s.fr.put(Map::new());
+                s.order.clear();
+            }
+        }
+        if let Some(c) = counted {
+            if c != len {
+                self.h.viol(prop, "adaptor-count", format!("{}().count() = {} for {} entries", kname, c, len));
+            }
+            return;
+        }
+        if got.len() != positions.len() {
+            self.h.viol(prop, "adaptor-yield-count", format!("{}().{} (j={}) on {} entries yielded {} items; a plain next() loop semantics gives {}", kname, STYLES[style], j, len, got.len(), positions.len()));
+        }
+        let ident = |e: &(u32, u64, u64, u32)| -> (u32, u64) {
+            match kind {
+                0 | 3 | 5 | 6 => (e.0, if tracked { e.1 ^ e.2.rotate_left(17) } else { 0 }),
+                1 | 7 => (e.0, if tracked { e.1 } else { 0 }),
+                _ => (e.3, if tracked { e.2 } else { 0 }),
+            }
+        };
+        if kind < 5 {
+            // borrowing iterators yield in iter() order: exact positions
+            let want: Vec<(u32, u64)> = positions.iter().filter_map(|p| reference.get(*p)).map(ident).collect();
+            if got != want {
+                self.h.viol("C09", "adaptor-items", format!("{}().{} (j={}) yielded {:?}; stepping with next() gives {:?} (as (class or value, identity))", kname, STYLES[style], j, got, want));
+            }
+        } else {
+            // consuming iterators: each yielded item is a distinct stored entry
+            let mut used = vec![false; reference.len()];
+            for g in &got {
+                match reference.iter().enumerate().find(|(i, e)| !used[*i] && ident(e) == *g) {
+                    Some((i, _)) => used[i] = true,
+                    None => self.h.viol("C10", "adaptor-items", format!("{}().{} yielded {:?}, which is not a not-yet-yielded entry of the map (repeat or phantom)", kname, STYLES[style], g)),
+                }
+            }
+        }
     }
 
     /// C19: Debug / Display of the map and of its iterators
@@ -1261,7 +1404,7 @@ impl<'a> Engine<'a> {
                 for _ in 0..j {
                     if let Some(v) = it.next() {
                         let p = v.payload();
-                        rest.retain(|e| e.2 != p);
+                        if let Some(i) = rest.iter().position(|e| e.2 == p) { rest.remove(i); } // only one: values may repeat
                     }
                 }
                 check_listing(self, "Values", format!("{:?}", it), rest.iter().map(vd).collect());
@@ -1273,7 +1416,7 @@ impl<'a> Engine<'a> {
                 for _ in 0..j {
                     if let Some(v) = it.next() {
                         let p = v.payload();
-                        rest.retain(|e| e.2 != p);
+                        if let Some(i) = rest.iter().position(|e| e.2 == p) { rest.remove(i); } // only one: values may repeat
                     }
                 }
                 check_listing(self, "ValuesMut", format!("{:?}", it), rest.iter().map(vd).collect());
@@ -1304,7 +1447,7 @@ impl<'a> Engine<'a> {
                         for _ in 0..j {
                             if let Some(v) = it.next() {
                                 let p = v.payload();
-                                rest.retain(|e| e.2 != p);
+                                if let Some(i) = rest.iter().position(|e| e.2 == p) { rest.remove(i); } // only one: values may repeat
                             }
                         }
                         check_listing(self, "IntoValues", format!("{:?}", it), rest.iter().map(vd).collect());
@@ -1519,9 +1662,22 @@ impl<'a> Engine<'a> {
         self.step("fork", || "clone()".into());
         self.fp_step(s, O_FORK, 0, 0);
         if !self.light { self.cx.rep.hit(&format!("clone:{}", fill_name(s.model.len(), N))); }
+        let cc0 = F::clone_counts();
         ledger::log_start();
         let c: Map<F::K, F::V, N> = s.fr.get().clone();
         let log = ledger::log_take();
+        if let (Some(a), Some(b)) = (cc0, F::clone_counts()) {
+            let n = s.model.len() as u64;
+            if b.0 - a.0 != n || b.1 - a.1 != n {
+                self.h.viol("C15", "clone-count", format!("clone() of {} entries called K::clone {} times and V::clone {} times (each must be exactly once per entry)", n, b.0 - a.0, b.1 - a.1));
+            }
+            // every element of the copy is the result of a Clone::clone call (fresh serial), not a bitwise duplicate
+            for (k, v) in c.iter() {
+                if s.fr.get().iter().any(|(ok, ov)| ok.serial() == k.serial() || ov.serial() == v.serial()) {
+                    self.h.viol("C15", "clone-bitwise-copy", format!("clone(): the copy's entry of class {} carries the same serial as the original: it was duplicated without calling Clone::clone", k.class()));
+                }
+            }
+        }
         let mut model = Dict::new(N);
         if F::TRACKED {
             let mut kclones: Vec<(u64, u64)> = Vec::new();
@@ -1587,6 +1743,7 @@ impl<'a> Engine<'a> {
                 O_ITER => self.op_iter_probe(s!()),
                 O_FMT => self.op_fmt_probe(s!()),
                 O_ENTRY => self.op_entry(s!()),
+                O_ADAPT => self.op_adaptor(s!()),
                 O_FORK => {
                     if suts.len() < 2 {
                         let t = self.op_fork(&mut suts[ix]);
@@ -1618,6 +1775,7 @@ impl<'a> Engine<'a> {
 
     pub fn run_history<F: Fam, const N: usize>(&mut self, max_steps: usize) {
         ledger::reset();
+        self.h.live_base = F::live_objects().unwrap_or(0);
         let mut suts: Vec<Sut<F, N>> = vec![Sut::new()];
         self.sweep(&mut suts[0]);
         let steps = self.rng.length(8, max_steps);
@@ -1663,7 +1821,7 @@ pub fn required_rows(prop: &str) -> Vec<&'static str> {
         "C01" => vec!["insert", "insert_key_value", "checked_insert", "get_mut", "index", "index_mut", "remove", "remove_entry", "retain", "clear", "drain"],
         "C02" => vec!["insert", "remove", "retain", "clear", "drain", "into_iter", "into_keys", "into_values", "clone", "entry."],
         "C05" => vec!["insert", "checked_insert", "remove", "retain", "entry.", "index"],
-        "C09" => vec!["iter:", "iter_mut:", "keys:", "values:", "values_mut:"],
+        "C09" => vec!["iter:", "iter_mut:", "keys:", "values:", "values_mut:", "adaptor:"],
         "C10" => vec!["drain", "into_iter", "into_keys", "into_values"],
         "C12" => vec!["insert", "insert_key_value", "checked_insert", "remove_entry", "entry."],
         "C15" => vec!["clone", "drop-copy"],
@@ -1683,7 +1841,7 @@ pub fn history<F: Fam, const N: usize>(cx: &mut Ctx, hist: u64, mut rng: Rng, ma
         h: Hist::new(hist),
         rng,
         cfg,
-        universe: N as u32 + 3,
+        universe: if <F::K as KeyF>::norm(7) != 7 { 1 } else { N as u32 + 3 },
         light: false,
         focus: 1,
     };
